@@ -215,4 +215,93 @@ Proof.
     symmetry. apply delete_notin. exact Hfa.
 Qed.
 
+(* ------------------------------------------------------------------ extend / from_iter *)
+
+(* the reference: one insert after the other (a duplicate key keeps the first key object) *)
+Definition ext1 (m : gmap N elem) (x : N * N * N) : gmap N elem :=
+  let '(k, kid, v) := x in
+  <[k := Elem k (match m !! k with Some e => ekid e | None => kid end) v]> m.
+Definition ext (m : gmap N elem) (items : list (N * N * N)) : gmap N elem := fold_left ext1 items m.
+
+Definition XU : panic -> st -> Prop := fun p s' => Inv R ES (s_rt s') /\ (p = PUser \/ p = PCapOverflow).
+
+Lemma insert_all_spec : forall (items : list (N * N * N)) s,
+  Inv R ES (s_rt s) ->
+  wp (iterM (fun x => let '(k, kid, v) := x in
+                      o <- map_insert c k kid v ;;
+                      match o with Some v' => drop_val v' | None => ret tt end) items)
+     (fun _ s' => Inv R ES (s_rt s') /\ rt_abs (s_rt s') = ext (rt_abs (s_rt s)) items) XU s.
+Proof.
+  induction items as [|[[k kid] v] items IH]; intros s HI; cbn [iterM].
+  - apply wp_ret. auto.
+  - apply wp_bind. apply wp_bind.
+    eapply wp_conseq; [apply (map_insert_spec k kid v s HI)| |].
+    + intros res s1 (HI1 & Hres & _).
+      assert (Habs1 : rt_abs (s_rt s1) = ext1 (rt_abs (s_rt s)) (k, kid, v)).
+      { unfold ext1. destruct (rt_abs (s_rt s) !! k); destruct Hres as [_ ->]; reflexivity. }
+      apply (wp_mono _ (fun _ s2 => s_rt s2 = s_rt s1)).
+      { destruct res; [apply frame0_use; [apply frame0_tick|auto]|apply wp_ret; reflexivity]. }
+      intros [] s2 Hs2. eapply wp_conseq; [apply (IH s2); rewrite Hs2; exact HI1| |].
+      * intros [] s3 [HI3 Habs3]. split; [exact HI3|]. rewrite Habs3, Hs2, Habs1. reflexivity.
+      * auto.
+    + intros p s1 (HI1 & Hp & _). split; [exact HI1|]. destruct Hp as [->|[-> _]]; auto.
+Qed.
+
+Lemma map_extend_spec items hint s :
+  Inv R ES (s_rt s) -> hint <= usize_max ->
+  wp (map_extend c items hint)
+     (fun _ s' => Inv R ES (s_rt s') /\ rt_abs (s_rt s') = ext (rt_abs (s_rt s)) items) XU s.
+Proof.
+  intros HI Hh. unfold map_extend. wp_steps.
+  set (rsv := if rt_len (s_rt s) =? 0 then hint else hint / 2 + hint mod 2).
+  assert (Hrsv : rsv <= usize_max).
+  { unfold rsv. destruct (_ =? 0); [exact Hh|]. pose proof (N.div_mod hint 2 ltac:(lia)). pose proof (N.mod_lt hint 2 ltac:(lia)). lia. }
+  apply wp_on_unwind. apply rt_reserve_spec; [exact HI|exact Hrsv| | |].
+  - intros s1 (HI1 & Habs1 & _). eapply wp_conseq; [apply (insert_all_spec items s1 HI1)| |]; [|auto].
+    intros [] s2 [HI2 Habs2]. split; [exact HI2|]. rewrite Habs2, Habs1. reflexivity.
+  - discriminate.
+  - intros p s1 (HI1 & Hp & _) _. apply frame0_use.
+    { apply frameU_iterM. intros [[k kid] v]. apply frameU_bind; [apply frame0_tick|intros _; apply frame0_tick]. }
+    intros [] s2 Hs2. split; [rewrite Hs2; exact HI1|exact Hp].
+Qed.
+
+Lemma ext_app m a b : ext m (a ++ b) = ext (ext m a) b.
+Proof. unfold ext. apply fold_left_app. Qed.
+
+Lemma extend_chunks_spec : forall (chunks : list (list (N * N * N))) s,
+  Inv R ES (s_rt s) -> (forall ch, ch ∈ chunks -> N.of_nat (length ch) <= usize_max) ->
+  wp (iterM (fun ch => map_extend c ch (N.of_nat (length ch))) chunks)
+     (fun _ s' => Inv R ES (s_rt s') /\ rt_abs (s_rt s') = ext (rt_abs (s_rt s)) (concat chunks)) XU s.
+Proof.
+  induction chunks as [|ch chunks IH]; intros s HI Hlen; cbn [iterM concat].
+  - apply wp_ret. auto.
+  - apply wp_bind. eapply wp_conseq; [apply (map_extend_spec ch _ s HI); apply Hlen; left| |]; [|auto].
+    intros [] s1 [HI1 Habs1]. eapply wp_conseq; [apply (IH s1 HI1)| |]; [intros ch' Hch'; apply Hlen; right; exact Hch'| |auto].
+    intros [] s2 [HI2 Habs2]. split; [exact HI2|]. rewrite Habs2, Habs1, ext_app. reflexivity.
+Qed.
+
+(* rayon par_extend: whatever the pieces, the same collection as extending by all items in order *)
+Lemma map_par_extend_spec chunks s :
+  Inv R ES (s_rt s) -> N.of_nat (length (concat chunks)) < usize_max ->
+  wp (map_par_extend c chunks)
+     (fun _ s' => Inv R ES (s_rt s') /\ rt_abs (s_rt s') = ext (rt_abs (s_rt s)) (concat chunks)) XU s.
+Proof.
+  intros HI Hh. unfold map_par_extend. wp_steps.
+  set (len := N.of_nat (length (concat chunks))) in *.
+  set (rsv := if rt_len (s_rt s) =? 0 then len else (len + 1) / 2).
+  assert (Hrsv : rsv <= usize_max).
+  { unfold rsv. destruct (_ =? 0); [lia|]. apply N.div_le_upper_bound; lia. }
+  assert (Hch : forall ch, ch ∈ chunks -> N.of_nat (length ch) <= usize_max).
+  { intros ch Hin. assert ((length ch <= length (concat chunks))%nat); [|unfold len in Hh; lia].
+    clear -Hin. induction chunks as [|x xs IH]; [inversion Hin|]. cbn [concat]. rewrite app_length.
+    apply elem_of_cons in Hin as [->|Hin]; [lia|]. specialize (IH Hin). lia. }
+  apply wp_on_unwind. apply rt_reserve_spec; [exact HI|exact Hrsv| | |].
+  - intros s1 (HI1 & Habs1 & _). eapply wp_conseq; [apply (extend_chunks_spec chunks s1 HI1 Hch)| |]; [|auto].
+    intros [] s2 [HI2 Habs2]. split; [exact HI2|]. rewrite Habs2, Habs1. reflexivity.
+  - discriminate.
+  - intros p s1 (HI1 & Hp & _) _. apply frame0_use.
+    { apply frameU_iterM. intros [[k kid] v]. apply frameU_bind; [apply frame0_tick|intros _; apply frame0_tick]. }
+    intros [] s2 Hs2. split; [rewrite Hs2; exact HI1|exact Hp].
+Qed.
+
 End MapProofs.
